@@ -307,6 +307,39 @@ Fixpoint chain_ok (prev : list (text * list idx)) (us : list us_obs) : bool :=
       chain_ok ((uo_name u, uo_new_index u) :: prev) tl
   end.
 
+(* touched_kinds: component of the model (old_* snapshot of update_source) -> kinds of records update_source may regenerate;
+   static copy of the table regenerated from model.py / update.py on every run (obligation gen_touched_match) *)
+Definition static_touched : list (text * list text) :=
+  [ (T "datainfo", [T "DATA"; T "DES"; T "ERROR"; T "INPUT"; T "MODEL"; T "PK"; T "PRED"; T "SUBROUTINES"]);
+    (T "description", [T "PROBLEM"]);
+    (T "execution_steps", [T "COVARIANCE"; T "DATA"; T "DES"; T "DESIGN"; T "ERROR"; T "ESTIMATION"; T "INPUT"; T "MODEL"; T "MSFI"; T "PK"; T "PRED"; T "PROBLEM"; T "SIMULATION"; T "SUBROUTINES"; T "TABLE"]);
+    (T "initial_individual_estimates", [T "ESTIMATION"; T "ETAS"]);
+    (T "name", [T "TABLE"]);
+    (T "parameters", [T "OMEGA"; T "SIGMA"; T "SIZES"; T "THETA"]);
+    (T "random_variables", [T "ABBREVIATED"; T "OMEGA"; T "SIGMA"; T "SIZES"; T "THETA"]);
+    (T "statements", [T "DES"; T "ERROR"; T "MODEL"; T "PK"; T "PRED"; T "SIZES"; T "SUBROUTINES"]) ].
+Definition touched_kinds (comps : list text) : list text :=
+  flat_map (fun c => match find (fun p => text_eqb (fst p) c) static_touched with Some p => snd p | None => [] end) comps.
+
+(* a record object as seen in the call traces: identity, name, text *)
+Definition trec := (positive * text * text)%type.
+Definition t_id (r : trec) : positive := fst (fst r).
+Definition t_name (r : trec) : text := snd (fst r).
+Definition t_str (r : trec) : text := snd r.
+Definition trec_of (objs : list trec) (p : erec) : trec :=
+  match find (fun o => Pos.eqb (t_id o) (fst p)) objs with
+  | Some o => o
+  | None => (fst p, snd p, [0%N])          (* unknown object: a text no real record has *)
+  end.
+Definition to_ecall (objs : list trec) (e : edit_obs) : ecall trec :=
+  let conv := map (trec_of objs) in
+  match eo_kind e with
+  | 1 => match eo_arg_rec e with r :: _ => EIns trec (trec_of objs r) (eo_at e) | [] => ERem trec [] end
+  | 2 => ERem trec (conv (eo_arg_old e))
+  | 3 => ERepl trec (conv (eo_arg_old e)) (conv (eo_arg_rec e))
+  | _ => EAll trec (eo_name e) (conv (eo_arg_rec e))
+  end.
+
 (* one real call of update.update_abbr_record: the $ABBREVIATED records of problem 0 with their
    translate_to_pharmpy_names() pairs, rv_trans, the records that survived and the (pharmpy, nonmem) pairs created *)
 Record abbr_obs := mkAbbr {
@@ -329,7 +362,10 @@ Record mstep := mkMStep {
   ms_sizes_in : option (nat * nat * bool);   (* resulting model: number of thetas, compartments, has a compartmental system *)
   ms_sizes_ins : list (list sizes_opt);      (* options of every $SIZES record inserted during the step *)
   ms_reread : bool;                          (* re-reading the resulting code gives the in-memory statements *)
-  ms_abbr : list abbr_obs                    (* the real update_abbr_record calls *)
+  ms_abbr : list abbr_obs;                   (* the real update_abbr_record calls *)
+  ms_ids_before : list positive;             (* record objects of the control stream when the step starts ... *)
+  ms_ids_after : list positive;              (* ... and when it ends *)
+  ms_comps : list text                       (* components of the model the step changed (measured: m2.x != m.x) *)
 }.
 Record mcase := mkMCase {
   mc_text : text;
@@ -338,7 +374,8 @@ Record mcase := mkMCase {
   mc_nonstmt : list (text * nat * list text); (* non-statement root children (comments, verbatim) of the code records *)
   mc_us : mstep;                             (* update_source() without any modification *)
   mc_edits : list mstep;
-  mc_history : list mstep                    (* successive edits, each applied to the result of the previous one *)
+  mc_history : list mstep;                   (* successive edits, each applied to the result of the previous one *)
+  mc_objs : list trec                        (* every record object seen in the traces of this case *)
 }.
 
 Definition s_ABBR : text := T "ABBREVIATED".
@@ -446,10 +483,42 @@ Fixpoint history_tags (nsb : list (text * nat * list text)) (prev : list srec) (
   | s :: tl => step_tags prev nsb s false :: history_tags nsb (match ms_after s with Some a => a | None => prev end) tl
   end.
 
+(* the real trace of edit-method calls of a step, against the regenerated touched_kinds table: every call is within the
+   kinds of the changed components or text-neutral (26); running the modelled calls from the stream at the start gives
+   the stream at the end, i.e. the control stream is only ever changed through these calls (27); and the conclusion of
+   Properties.edit_frame evaluated on the implementation's own record lists (28) *)
+Definition trace_tags (objs : list trec) (before : list srec) (s : mstep) : list nat :=
+  match ms_after s with
+  | None => []
+  | Some after =>
+      let K := touched_kinds (ms_comps s) in
+      let l0 := map (fun i => trec_of objs (i, [])) (ms_ids_before s) in
+      let cs := map (to_ecall objs) (ms_calls s) in
+      tag (calls_ok trec t_name t_id t_str e_order K l0 cs) 26 ++
+      tag (match run_calls trec t_name t_id e_order l0 cs with
+           | Some l1 => list_eqb Pos.eqb (map t_id l1) (ms_ids_after s)
+           | None => false end) 27 ++
+      tag (list_eqb srec_eqb (unrelated K before) (unrelated K after)) 28
+  end.
+Fixpoint history_trace_tags (objs : list trec) (prev : list srec) (hs : list mstep) : list (list nat) :=
+  match hs with
+  | [] => []
+  | s :: tl => trace_tags objs prev s :: history_trace_tags objs (match ms_after s with Some a => a | None => prev end) tl
+  end.
+Fixpoint zip_app (a b : list (list nat)) : list (list nat) :=
+  match a, b with
+  | x :: a', y :: b' => (x ++ y) :: zip_app a' b'
+  | _, _ => a
+  end.
+
 Definition mverdict_steps (c : mcase) : list (list nat) :=
-  (tag (mc_code_eq c) 18 ++ step_tags (mc_before c) (mc_nonstmt c) (mc_us c) true) ::
-  map (fun s => step_tags (mc_before c) (mc_nonstmt c) s false) (mc_edits c) ++
-  history_tags (mc_nonstmt c) (mc_before c) (mc_history c) ++
+  zip_app
+    ((tag (mc_code_eq c) 18 ++ step_tags (mc_before c) (mc_nonstmt c) (mc_us c) true) ::
+     map (fun s => step_tags (mc_before c) (mc_nonstmt c) s false) (mc_edits c) ++
+     history_tags (mc_nonstmt c) (mc_before c) (mc_history c))
+    (trace_tags (mc_objs c) (mc_before c) (mc_us c) ::
+     map (trace_tags (mc_objs c) (mc_before c)) (mc_edits c) ++
+     history_trace_tags (mc_objs c) (mc_before c) (mc_history c)) ++
   [tag (chain_ok [] (flat_map ms_updates (mc_history c))) 23].
 
 (* one flat list per case: the tags of step k are offset by 1000 * k (k = 0 is update_source) *)
